@@ -264,13 +264,8 @@ func (w *ViewWorld) Apply(op string) (string, []Violation) {
 				w.a[i] = nil
 			}
 			w.a[hnd] = coll(w.h[hnd], NameA)
-			other := 1 - hnd
-			// the other handle still caches the dropped collection object: reopen the handle
-			w.h[other].Close(ctx)
-			b, oerr := rosmar.OpenBucket(BucketURL(w.cfg, "b1"), "b1", rosmar.CreateOrOpen)
-			must(oerr)
-			w.h[other] = b
-			w.a[other] = coll(b, NameA)
+			// the other handle had the dropped collection cached: it must reach the new one all the same
+			w.a[1-hnd] = coll(w.h[1-hnd], NameA)
 			err = w.putDDoc(hnd, false, true)
 		}
 	}
@@ -457,7 +452,7 @@ func (w *ViewWorld) Canon() string {
 			fmt.Fprintf(&b, "%s/%s:%d#%d:%v;", v.DDoc, v.View, len(v.MapFn), rank[v.LastCas], v.Mapped)
 		}
 	}
-	fmt.Fprintf(&b, "|changed=%v", w.v1changed)
+	fmt.Fprintf(&b, "|changed=%v caches=%s/%s", w.v1changed, CacheState(w.h[0]), CacheState(w.h[1]))
 	return b.String()
 }
 
